@@ -1,20 +1,33 @@
-"""dev helper: python -m pyvc.quick contracts/c08.py [function-substring]"""
+"""dev helper: python -m pyvc.quick contracts/c08.py [function-substring] [--dump obligation-substring]"""
 import sys, importlib.util, time
 from pyvc.engine import Engine
 from pyvc import solve
 def load(path):
     spec = importlib.util.spec_from_file_location("cmod", path); m = importlib.util.module_from_spec(spec); spec.loader.exec_module(m); return m
 if __name__ == "__main__":
-    m = load(sys.argv[1]); filt = sys.argv[2] if len(sys.argv) > 2 else ""
-    eng = Engine(m.MODULE)
-    for short in m.VERIFY:
-        if filt in short:
-            print(eng.verify(short))
-    t=time.time(); vs = solve.discharge_all(eng.obls); 
+    m = load(sys.argv[1]); filt = sys.argv[2] if len(sys.argv) > 2 and not sys.argv[2].startswith("--") else ""
+    dump = sys.argv[sys.argv.index("--dump")+1] if "--dump" in sys.argv else None
+    mods = m.MODULES if hasattr(m, "MODULES") else [(m.MODULE, m.VERIFY)]
+    obls=[]
+    for module, verify in mods:
+        eng = Engine(module)
+        for short in verify:
+            if filt in short:
+                print(eng.verify(short))
+        obls += eng.obls
+        for n in eng.notes: print("   note", n)
+    if dump:
+        i=0
+        for o in obls:
+            if dump in o.name:
+                open(f"/verif/.work/dump{i}.smt2","w").write(solve.full_script(o)); 
+                try: open(f"/verif/.work/dump{i}_s2.smt2","w").write(solve.qf_script(o))
+                except Exception as e: print("s2 error", e)
+                print("dumped", o.name, "->", f".work/dump{i}.smt2"); i+=1
+        sys.exit()
+    t=time.time(); vs = solve.discharge_all(obls)
     bad=0
     for v in vs:
         if v.status != "proved":
             bad+=1; print("  ", v.status.upper(), v.o.name, "L%d"%v.o.line, v.detail)
-    print(f"{len(vs)} obligations, {len(vs)-bad} ok, {bad} not ok, {time.time()-t:.1f}s; notes:")
-    for n in eng.notes: print("   note", n)
-    for v in sorted(vs, key=lambda v:-v.ms)[:6]: print("   slow", v.ms, v.o.name, v.solver, v.stage, v.detail)
+    print(f"{len(vs)} obligations, {len(vs)-bad} ok, {bad} not ok, {time.time()-t:.1f}s")
